@@ -7,7 +7,7 @@ import tempfile
 import time
 
 sys.path.insert(0, os.path.dirname(os.path.dirname(os.path.abspath(__file__))))
-from vlib import build, refbuild, schemes
+from vlib import build, genmon, refbuild, schemes
 from vlib.common import Check, NCPU, Rng, main_guard, pmap, run, arg_value
 
 EXPENSIVE = {4, 5, 6, 8, 13, 14, 15, 16, 19}      # one quadrature per 1-keV bin at initialisation
@@ -19,6 +19,7 @@ def configs(chk, quick, only=None):
     """(name, level, mode, e1, e2, window, nme) for all isotopes x levels 0..MAXLEVEL x modes 1..20;
     rejected ones cost microseconds on both sides and bind the ier comparison."""
     rng = Rng(chk.seed, 202)
+    table = schemes.ref_dbd_table()
     out = []
     for name in schemes.dbd_names():
         if only and name not in only:
@@ -31,12 +32,18 @@ def configs(chk, quick, only=None):
                     continue
                 nme = [round(0.2 + 2.0 * rng.uniform(), 6) for _ in range(7)] if mode == 18 else None
                 out.append((name, level, mode, 0.0, 4.3, 0, nme))
-                if mode in WINDOW_MODES:
+                if mode in WINDOW_MODES and genmon.rule_accepts(table, name, level, mode):
+                    # windows on the 1/64 MeV lattice that intersect the kinematic range [0,e0] (an empty
+                    # intersection is refused by the port - see C06 - while the reference generates garbage)
+                    e0 = genmon.e0_of(table, name, level, mode)
+                    steps = int(e0 * 64)
+                    if steps < 2:
+                        continue
                     nwin = 1 if quick else 3
                     for _ in range(nwin):
-                        a = rng.randint(0, 120) / 64.0
-                        b = a + rng.randint(4, 160) / 64.0
-                        out.append((name, level, mode, a, b, 1, None))
+                        a = rng.randint(0, steps - 1)
+                        b = a + rng.randint(1, steps + 8)
+                        out.append((name, level, mode, a / 64.0, b / 64.0, 1, None))
     return out
 
 
